@@ -182,6 +182,14 @@ def join : TRes → TRes → Option TRes
   | r, .failed => some r
   | .ok a, .ok b => if a = b then some (.ok a) else none
 
+def stepMore : Instr → List Ty → Option TRes
+  | .TOTAL_VOTING_POWER, s | .MIN_BLOCK_TIME, s => some (.ok (.nat :: s))
+  | .BLAKE2B, .bytes :: s | .SHA256, .bytes :: s | .SHA512, .bytes :: s | .KECCAK, .bytes :: s | .SHA3, .bytes :: s =>
+    some (.ok (.bytes :: s))
+  | .CAST t, a :: s => if a = t then some (.ok (a :: s)) else none
+  | .RENAME, a :: s => some (.ok (a :: s))
+  | _, _ => none
+
 def step : Instr → List Ty → Option TRes
   | .DROP, _ :: s => some (.ok s)
   | .DROPN n, s => if n ≤ s.length then some (.ok (s.drop n)) else none
@@ -243,7 +251,7 @@ def step : Instr → List Ty → Option TRes
   | .NOW, s => some (.ok (.timestamp :: s))
   | .LEVEL, s => some (.ok (.nat :: s))
   | .CHAIN_ID, s => some (.ok (.chainId :: s))
-  | _, _ => none
+  | i, s => stepMore i s
 
 mutual
   /-- `strictMap`: additionally require MAP bodies to preserve the element type -/
